@@ -31,6 +31,7 @@ const (
 	opPrintfStr
 	opPrintSafe
 	opPrintRedactable
+	opPrintfFlags // Printf whose last verb carries width/precision/flags
 	nOps
 )
 
@@ -48,8 +49,13 @@ type opRec struct {
 func mkOp(code, n int) opRec {
 	o := opRec{code: code}
 	switch code {
-	case opSafeString, opUnsafeString, opSafeBytes, opUnsafeBytes, opWrite, opWriteString, opPrintStr, opPrintfStr, opPrintSafe:
-		o.bs = vBytes(n)
+	case opSafeString, opUnsafeString, opSafeBytes, opUnsafeBytes, opWrite, opWriteString, opPrintStr, opPrintfStr, opPrintSafe, opPrintfFlags:
+		if n >= 100 {
+			// payload template (see payloadTemplates in h_escape.go)
+			o.bs = templatePayload(payloadTemplates[n-100])
+		} else {
+			o.bs = vBytes(n)
+		}
 	case opSafeRune, opUnsafeRune, opWriteRune:
 		o.r = vRune()
 	case opSafeByte, opUnsafeByte, opWriteByte:
@@ -111,6 +117,8 @@ func (o opRec) payloadText() (text []byte, valid bool) {
 		return o.bs, validUTF8(o.bs)
 	case opPrintfStr:
 		return cat([]byte("l"), o.bs, []byte("l‹")), validUTF8(o.bs)
+	case opPrintfFlags:
+		return cat([]byte("k"), o.bs, []byte(":+1.50|007/")), validUTF8(o.bs)
 	case opSafeRune, opUnsafeRune, opWriteRune:
 		if !validRune(o.r) {
 			return nil, false
@@ -133,6 +141,8 @@ func (o opRec) safeText(text []byte) []byte {
 	switch o.code {
 	case opPrintfStr:
 		return cat([]byte("l"), nlOf(o.bs), []byte("l?"))
+	case opPrintfFlags:
+		return cat([]byte("k"), nlOf(o.bs), []byte(":|/"))
 	case opPrintRedactable:
 		return delEnv(o.bs)
 	}
@@ -175,6 +185,8 @@ func applySW(w redact.SafeWriter, o opRec) {
 		w.Print(redact.Safe(string(o.bs)))
 	case opPrintRedactable:
 		w.Print(redact.RedactableString(o.bs))
+	case opPrintfFlags:
+		w.Printf("k%s:%+.2f|%03d/", string(o.bs), 1.5, 7)
 	default:
 		panic("applySW: op")
 	}
@@ -262,6 +274,21 @@ func applyManual(b *redact.ManualBuffer, o opRec) {
 	case opPrintRedactable:
 		b.SetMode(buffer.SafeRaw)
 		b.Write(o.bs)
+	case opPrintfFlags:
+		b.SetMode(buffer.SafeEscaped)
+		b.WriteString("k")
+		b.SetMode(buffer.UnsafeEscaped)
+		b.WriteString(string(o.bs))
+		b.SetMode(buffer.SafeEscaped)
+		b.WriteString(":")
+		b.SetMode(buffer.UnsafeEscaped)
+		b.WriteString("+1.50")
+		b.SetMode(buffer.SafeEscaped)
+		b.WriteString("|")
+		b.SetMode(buffer.UnsafeEscaped)
+		b.WriteString("007")
+		b.SetMode(buffer.SafeEscaped)
+		b.WriteString("/")
 	}
 }
 
